@@ -12,7 +12,13 @@ from checks.c02 import common_flag, corpus_cases, fields_of
 PROPERTY = "C03"
 LEAN_MODULES = ["TapkeeVerif.Props.C03"]
 LEAN_EXES = ["model_c03"]
-REQUIRED_THEOREMS = []
+REQUIRED_THEOREMS = [
+    "TapkeeVerif.Connected.isConnected_iff",
+    "TapkeeVerif.Connected.C03_geodesics_finite",
+    "TapkeeVerif.Connected.k_raised_only_if_needed",
+    "TapkeeVerif.Connected.findNeighbors_terminates",
+    "TapkeeVerif.Connected.decision_order_independent",
+]
 METHODS = ["brute", "vptree", "covertree"]
 # the Dijkstra of routines/isomap.hpp opens an OpenMP region per call; thread count is C15's subject, not C03's
 OMP1 = {"OMP_NUM_THREADS": "1"}
